@@ -125,27 +125,11 @@ Example md_fine_example :
 Proof. split; repeat constructor; try discriminate; reflexivity. Qed.
 
 (* ---- the same facts for the dictionary whose system layer is a trie file (mdf_ops: capi cases) ---- *)
-Lemma insert_by_key_in x : forall l y, In y (insert_by_key x l) -> y = x \/ In y l.
-Proof.
-  induction l as [|z l IH]; intros y H; cbn [insert_by_key] in H; [destruct H as [<-|[]]; now left|].
-  destruct x as [[[kx tx] fx] mx]. destruct z as [[[kz tz] fz] mz].
-  destruct (lex_compare kx kz).
-  - destruct H as [<-|H]; [now left | now right].
-  - destruct H as [<-|H]; [now left | now right].
-  - destruct H as [<-|H]; [right; now left|]. destruct (IH y H) as [->|Hy]; [now left | right; now right].
-Qed.
-
-Lemma sort_by_key_in : forall l y, In y (sort_by_key l) -> In y l.
-Proof.
-  induction l as [|x l IH]; intros y H; cbn [sort_by_key fold_right] in H; [contradiction|].
-  apply insert_by_key_in in H as [->|H]; [now left | right; now apply IH].
-Qed.
-
 Lemma tbf_lookup_in entries k p : In p (tbf_lookup entries k) ->
   exists k' tm, In (k', fst p, snd p, tm) entries /\ syls_match k' k = true.
 Proof.
   unfold tbf_lookup. intros H. apply in_map_iff in H as ([[[k' t] f] tm] & <- & Hin).
-  apply sort_by_key_in in Hin. apply filter_In in Hin as (Hin & Hm). exists k', tm. cbn [fst snd]. split; assumption.
+  apply filter_In in Hin as (Hin & Hm). exists k', tm. cbn [fst snd]. split; assumption.
 Qed.
 
 Lemma syls_match_nil k' : syls_match k' [] = true -> k' = [].
